@@ -32,8 +32,8 @@ KeysFor(B, r) ==
       lits == [i \in DOMAIN o.lits |-> Lex(B, o.lits[i])]
       same == SameStatementReason(Ti, Tp, lits)
       literalMarks == Len(SelectSeq(Tp, LAMBDA t : t.k = "ph")) # Len(o.values)
-      g == IF WithGrammar THEN GrammarReason(B, s, o.inline) ELSE ""
-  IN (IF g \in {"", "?unsupported"} THEN {} ELSE {(IF B = "sqlite" THEN "C07/" ELSE "C08/") \o B \o "/" \o g})
+      gs == IF WithGrammar THEN GrammarReasons(B, s, o.inline) ELSE {}
+  IN {(IF B = "sqlite" THEN "C07/" ELSE "C08/") \o B \o "/" \o g : g \in gs \ {"?unsupported"}}
      \cup {"C01/" \o B \o "/" \o x : x \in PlaceholderReasons(B, Tp, Len(o.values))}
      \cup (IF o.values = want THEN {} ELSE {"C01/" \o B \o "/bound_values_differ_from_given_order"})
      \cup {"C01/" \o B \o "/" \o x : x \in EventReasons(o.events, 1, 0, B = "pg")}
